@@ -85,7 +85,20 @@ class K(icontract.DBC):
         pt()
         return x * 10
 
+async def _brk(self, x, tag):
+    # a public method that leaves the invariant broken: the check after the call must report it
+    LOG.append((tag, "body"))
+    self.ok = False
+    return x * 10
+K.brk = _brk
 TASKS = {}
+async def _spawn_detached(self, calls):
+    # fire and forget: the children are created inside the body of a public method of THIS object and run after it returned
+    loop = asyncio.get_running_loop()
+    for lab, coro in calls:
+        TASKS[lab] = loop.create_task(coro)
+    return 0
+K.spawn_detached = _spawn_detached
 async def _spawn(self, calls):
     # runs inside the BODY of a public method of an invariant class: the children copy the context *now*
     loop = asyncio.get_running_loop()
@@ -158,6 +171,7 @@ TASK_CALLS = {
     "af:pass+pass": [("af", 1), ("af", 2)],
     "af:viol+viol": [("af", -1), ("af", -2)],
     "af:pass+postviol": [("af", 1), ("af", 7)],
+    "brk_spawner+am_other": [("brk0", 1), ("am1", 1)],
     "am_same:pass+viol": [("am0", 1), ("am0", -1)],
     "am_same:viol+pass": [("am0", -1), ("am0", 1)],
     "am_two:pass+viol": [("am0", 1), ("am1", -1)],
@@ -172,7 +186,8 @@ TASK_CALLS3 = {
     "am_same:pass+viol+pass": [("am0", 1), ("am0", -1), ("am0", 2)],
     "mixed:af+am0+am1": [("af", -1), ("am0", 1), ("am1", -1)],
 }
-CTX_MODES = ["fresh", "after_parent", "parent_participates", "after_parent_violation", "spawned_from_method_body"]
+CTX_MODES = ["fresh", "after_parent", "parent_participates", "after_parent_violation", "spawned_from_method_body",
+             "detached_from_method_body_of_a_target"]
 
 
 def task_scenarios(tier):
@@ -203,6 +218,8 @@ def call_coro(ns, objs, kind, x, tag):
         return ns["af"](x, tag)
     if kind == "put":
         return objs[2].put(x, tag)
+    if kind.startswith("brk"):
+        return objs[int(kind[3])].brk(x, tag)
     return objs[int(kind[2])].am(x, tag)
 
 
@@ -239,6 +256,13 @@ def check_task_scenario(sc, acc, budget):
         parent = contextvars.Context()
         # the objects are built in a throw-away context so that the parent context is pristine unless the mode says otherwise
         objs = contextvars.Context().run(lambda: [ns["K"](), ns["K"](), ns["WC"]()])
+        if mode == "detached_from_method_body_of_a_target":
+            # the participants are created (not awaited) inside the body of a public method of objs[0] - an object that some of
+            # them call later, when that method has long returned: their calls are not nested in any running call
+            ns["TASKS"].clear()
+            calls = [(lab, call_coro(ns, objs, kind, x, lab)) for lab, (kind, x) in zip(labels, cl)]
+            ns["TASKS"]["P"] = loop.create_task(objs[0].spawn_detached(calls), context=parent)
+            return ns["TASKS"]
         if mode == "spawned_from_method_body":
             # the participants are spawned from INSIDE the body of a public method of an invariant class (a third object):
             # their contexts are copies of the parent's context while it holds the mark of that object
